@@ -156,7 +156,10 @@ func (n *simNet) watchPeers() {
 // through the same function the accept loop calls.
 func (n *simNet) connect(p *simPeerDef) *simSess {
 	a, b := net.Pipe()
-	remote := &net.TCPAddr{IP: simIP(p.Addr), Port: 40000 + len(n.sesss)}
+	n.mu.Lock()
+	port := 40000 + len(n.sesss)
+	n.mu.Unlock()
+	remote := &net.TCPAddr{IP: simIP(p.Addr), Port: port}
 	la := p.LocalAddr
 	if la == "" {
 		la = "192.0.2.254"
@@ -167,13 +170,22 @@ func (n *simNet) connect(p *simPeerDef) *simSess {
 	local := &net.TCPAddr{IP: simIP(la), Port: 179}
 	srvEnd := &simConn{Conn: a, local: local, remote: remote}
 	ss := &simSess{sim: n, peer: p, conn: b, done: make(chan struct{}), opened: n.now()}
+	n.mu.Lock()
 	n.sesss = append(n.sesss, ss)
+	n.mu.Unlock()
 	go ss.reader()
 	_ = n.s.mgmtOperation(func() error {
 		n.s.passConnToPeer(srvEnd)
 		return nil
 	}, false)
 	return ss
+}
+
+// sessions returns the transport connections opened so far.
+func (n *simNet) sessions() []*simSess {
+	n.mu.Lock()
+	defer n.mu.Unlock()
+	return append([]*simSess(nil), n.sesss...)
 }
 
 // simIP parses an address the way the kernel hands it to net.TCPAddr (4 bytes for IPv4).
@@ -374,7 +386,7 @@ func (n *simNet) stop() *verifkit.Failure {
 		n.watchCancel()
 	}
 	n.s.Stop()
-	for _, ss := range n.sesss {
+	for _, ss := range n.sessions() {
 		ss.close()
 	}
 	n.settle()
